@@ -826,3 +826,31 @@ func TestC08AfterLimit(t *testing.T) {
 		}
 	}
 }
+
+// TestC08NetConnStream: the NetConn adapter switches the read limit off, so the only bound on
+// memory is that it STREAMS: reading a 16 MiB message (highly compressible, a few KiB on the
+// wire, or uncompressed) through a 4 KiB buffer must not cost memory in proportion to the
+// message (an adapter that collects each message before serving it allocates two to three times
+// its size). Same envelope as the streaming Reader cases of runC08.
+func TestC08NetConnStream(t *testing.T) {
+	rec := evid.For("C08")
+	for _, mode := range []string{"server/takeover", "client/mode-no-ctx", "server/off"} {
+		var cm c03Mode
+		for _, m := range c03Modes {
+			if m.Name == mode {
+				cm = m
+			}
+		}
+		for _, frags := range []int{1, 3} {
+			c := c08Case{Mode: cm, API: "netconn", Buf: 4096, Msgs: []c08Msg{{Size: 16 << 20, Kind: ckZero, Compress: cm.Mode != websocket.CompressionDisabled, Variant: ref.DVSync, Frags: frags, SetLimit: c08Default}}}
+			var msg string
+			var res c08Result
+			synctest.Test(t, func(t *testing.T) { msg, res = runC08(t, c) })
+			rec.Case(true, fmt.Sprintf("netconn-stream|%s|%d", mode, frags), "netconn-16MiB-through-4KiB-buffer")
+			rec.Extra(fmt.Sprintf("netconn_stream_alloc_%s_frags%d", mode, frags), res.AllocDelta)
+			if msg != "" {
+				failCase(t, "C08", c.String(), "%s", msg)
+			}
+		}
+	}
+}
